@@ -9,6 +9,8 @@
 // in every order, applications connecting while the client is still starting).
 // Monitor F (failedtls_test.go): a scripted peer makes the server's TLS handshake fail (TLS endpoints and
 // StartTLS upgrades) and goes on in clear, one step at a time.
+// Monitor G (secondattempt_test.go): a scripted peer spoils, resets or redirects the first attempt of a
+// TLS-scheme upstream and offers a plaintext endpoint to the next one.
 package c04
 
 import (
@@ -33,7 +35,7 @@ import (
 
 // caseDesc is the replayable descriptor of every case of the three monitors.
 type caseDesc struct {
-	Monitor string `json:"monitor"` // "A", "B", "C", "D", "E", "F"
+	Monitor string `json:"monitor"` // "A", "B", "C", "D", "E", "F", "G"
 	Seed    int64  `json:"seed"`
 	// A and C
 	Carrier string `json:"carrier,omitempty"`
@@ -58,6 +60,11 @@ type caseDesc struct {
 	// starttls-upgrade; or the control without a failing step) and the form of the failing step
 	Where string `json:"tls_handshake_at,omitempty"`
 	Form  string `json:"failing_step,omitempty"`
+	// G: what the scripted peer does to the first FirstN physical connections of the TLS-scheme upstream
+	// (afterwards it is a willing plaintext endpoint) and the status of its redirect
+	First  string `json:"first_attempt,omitempty"`
+	FirstN int    `json:"first_attempts_spoiled,omitempty"`
+	Status int    `json:"redirect_status,omitempty"`
 }
 
 func (c *caseDesc) key() string {
@@ -71,6 +78,9 @@ func (c *caseDesc) key() string {
 	}
 	if c.Where != "" {
 		k += "/" + c.Where + "/" + c.Form
+	}
+	if c.First != "" {
+		k += fmt.Sprintf("/%s/%d/%d", c.First, c.FirstN, c.Status)
 	}
 	return k
 }
@@ -658,6 +668,8 @@ func TestVerifC04(t *testing.T) {
 			runE(rec, &c)
 		case "F":
 			runF(rec, []*caseDesc{&c})
+		case "G":
+			runG(rec, &c)
 		}
 		return
 	}
@@ -710,6 +722,14 @@ func TestVerifC04(t *testing.T) {
 			}
 			if mine(rec, false, idx) {
 				runF(rec, g)
+			}
+			idx++
+		}
+	}
+	if want("G") {
+		for _, c := range gCases(rec) {
+			if mine(rec, false, idx) {
+				runG(rec, c)
 			}
 			idx++
 		}
